@@ -20,6 +20,7 @@ impl Prop for Corr {
         for _ in 0..n {
             let css = r.p(60);
             let mut k = if css { Knobs::all() } else { Knobs::all().no_css() };
+            k.uspace = true;
             k.pre_inline = r.p(50);
             let mut html = String::new();
             if css && r.p(50) {
@@ -49,7 +50,7 @@ impl Prop for Corr {
                 cfg.route = crate::cfg::Route::Lines;
             }
             let w = rand_width(r, 50);
-            let bytes = if r.p(8) { gen::mutate(r, html.as_bytes()) } else { html.into_bytes() };
+            let bytes = if r.p(8) { gen::mutate(r, html.as_bytes()) } else if r.p(8) { gen::misnest(r, &html).into_bytes() } else { html.into_bytes() };
             v.push(case(bytes, cfg, w, "g-doc"));
         }
         v
